@@ -162,7 +162,9 @@ class MagicMemoryRTL( Component ):
 
       for i in range(nports):
 
-        if s.req_stalls[i].send.val:
+        # only process a request in the cycle it is actually handed over (val & rdy): while the
+        # response pipe is not ready the same request stays on the interface for several cycles
+        if s.req_stalls[i].send.val & s.req_stalls[i].send.rdy:
 
           # Dequeue memory request message
 
